@@ -17,6 +17,10 @@ GUARD = "MPT_BASE_VERIF"
 LIBS = ["mptcore", "mptio", "mptplot"]
 CFLAGS = ["-O1", "-g", "-fsanitize=address,undefined", "-fno-sanitize=nonnull-attribute", "-fno-sanitize-recover=undefined",
           "-fno-omit-frame-pointer", "-D" + GUARD, "-w", "-fPIC"]
+if os.environ.get("VERIF_COVER"):
+    # measurement mode of tools/cover.py (never set by a registered command): line coverage of the library
+    # under the generated scripts; the flag enters the tree hash, so these objects live in their own directory
+    CFLAGS = CFLAGS + ["--coverage"]
 INCS = ["-I" + os.path.join(REPO, d) for d in ("mptcore", "mptio", "mptplot", "mpt++", ".")]
 
 
